@@ -179,6 +179,10 @@ pub fn build_case(ch: &mut Ch) -> Case {
     let mut keys = Vec::new();
     for _ in 0..nkeys {
         let mut p = Profile::base();
+        p.overrides = 3;
+        p.wg_override = 4;
+        p.ov_sized_array = 3;
+        p.struct_helpers = 2;
         p.host_structs = (1, 5);
         p.groups = (1, 3);
         p.unused_structs = (0, 2);
@@ -189,6 +193,13 @@ pub fn build_case(ch: &mut Ch) -> Case {
         // two push constant variables, each used by its own entry point, are legal WGSL
         if crate::props::layouts::has_push(&sh).is_none() && h.chance(1, 3) {
             wgsl.push_str("struct PcCamera { view: mat4x4<f32>, }\nvar<push_constant> pc_camera: PcCamera;\nvar<push_constant> pc_tint: vec4<f32>;\n@vertex fn vs_two_pc() -> @builtin(position) vec4<f32> { return pc_camera.view[0]; }\n@fragment fn fs_two_pc() -> @location(0) vec4<f32> { return pc_tint; }\n");
+        }
+        // one key in five is a call graph (up to 300 helpers, deep chains, diamonds) from the C20
+        // generator: traversal order effects need depth; its choices are expanded from one draw
+        if h.chance(1, 5) {
+            let seed = h.raw() as u64;
+            let sub: Vec<u32> = (0..4000u64).map(|i| (crate::chooser::mix(seed, i) >> 32) as u32).collect();
+            wgsl = crate::props::c20::random_dag(&mut Ch::new(&sub)).wgsl;
         }
         keys.push(Key { wgsl, include_path: inc, opts });
     }
